@@ -87,6 +87,17 @@ def apply_contract(interp, c, func, args, kwargs):
         old = _call_pred(interp, c.old, env)
     if c.event is not None:
         st.emit(c.event, dict(bound))
+    # frame: the symbolic mutable state (maps) reachable from the parameters named in `modifies` is forgotten;
+    # the clauses relate it to `old`.  (Applies to exceptional outcomes too.)
+    if c.modifies:
+        from . import models
+        n = st.counters.get('@call', 0)
+        st.counters['@call'] = n + 1
+        for pname in c.modifies:
+            if pname not in bound:
+                raise Unsupported('contract %s: modifies names unknown parameter %r' % (c.qname, pname))
+            if not models.havoc_mutable(interp, bound[pname], 'call%d.%s' % (n, c.qname.rpartition(':')[2])):
+                raise Unsupported('contract %s: nothing to havoc in parameter %r' % (c.qname, pname))
     # exceptional outcomes
     outcomes = ['return']
     for exc_cls, spec in c.raises.items():
@@ -244,6 +255,16 @@ def _run_path(interp, reg, c, func, rep):
     old = None
     if c.old is not None:
         old = _call_pred(interp, c.old, env)
+        reg.ghost_env['old'] = old      # loop invariants of the function under verification may mention `old`
+    # frame: symbolic maps reachable from parameters that the contract does not list in `modifies`
+    # must be unchanged on every outcome
+    from . import models as _models
+    frame_snap = []
+    for pname, pval in args.items():
+        if pname in (c.modifies or ()):
+            continue
+        for path_, m_ in _models.reachable_smaps(pval):
+            frame_snap.append((pname + path_, m_, m_.has, m_.val))
     # positional order of the real function
     code = func.__code__
     names = list(code.co_varnames[:code.co_argcount + code.co_kwonlyargcount])
@@ -268,6 +289,9 @@ def _run_path(interp, reg, c, func, rep):
     key = 'return' if outcome[0] == 'return' else type(outcome[1]).__name__
     rep.outcomes[key] = rep.outcomes.get(key, 0) + 1
     fname = c.qname
+    for (where, m_, has0, val0) in frame_snap:
+        same = True if (m_.has is has0 and m_.val is val0) else wrap(z3.And(m_.has == has0, m_.val == val0))
+        st.oblige('%s : frame[%s unchanged]' % (fname, where), same, {'kind': 'frame'})
     if outcome[0] == 'return':
         env2 = _clause_env(args, ghosts, {'result': outcome[1], 'old': old, 'trace': st.trace, 'ghost': st.ghost})
         # a declared deterministic `when` exception must have been raised
